@@ -269,6 +269,13 @@ pub fn build(bins: &Binaries, repo: &Path, verif: &Path, thorough: bool, scratch
             explicit.extend(t.files.iter().map(|f| format!("$IN/{f}")));
             cmds.push(Cmd { id: format!("verify:{}:{ci}", t.id), kind: s("verify"), args: explicit, files: files.clone(), stdin_file: None, uses_out: true });
             if ci == 0 {
+                // problem generation with proof search switched on: no prover is installed on the PATH these runs get, so
+                // every problem ends in the same "unable to spawn" error, sequentially (-n 1); the saved files must not care
+                let mut searching: Vec<String> = vec![s("verify")];
+                searching.extend(t.options.iter().cloned());
+                searching.extend([s("--no-timing"), s("-n"), s("1"), s("--save-problems"), s("$OUT")]);
+                searching.extend(t.files.iter().map(|f| format!("$IN/{f}")));
+                cmds.push(Cmd { id: format!("verify-search:{}:{ci}", t.id), kind: s("verify-search"), args: searching, files: files.clone(), stdin_file: None, uses_out: true });
                 // the same files through their directory: which file plays which role is Files::sort's business
                 let mut via_dir = args.clone();
                 via_dir.push(s("$IN"));
